@@ -840,7 +840,27 @@ impl<'a> Gen<'a> {
         self.ptr_loc(d, 640);
         self.ptr_loc(s, self.rng.below(256) as u32);
         self.emit(op::movi(l, self.rng.below(200) as u32));
-        match self.rng.below(5) {
+        match self.rng.below(7) {
+            5 => {
+                // pairing check: curve id 0, element count small or (hostile) huge
+                let (c, n) = (19u8, 20u8);
+                self.emit(op::movi(c, self.rng.below(2) as u32));
+                self.emit(op::movi(n, self.rng.below(3) as u32));
+                if self.hostile() {
+                    self.interesting_value(n);
+                }
+                let v = self.val();
+                self.emit(op::epar(v, c, n, s));
+            }
+            6 => {
+                let (c, t) = (19u8, 20u8);
+                self.emit(op::movi(c, self.rng.below(2) as u32));
+                self.emit(op::movi(t, self.rng.below(3) as u32));
+                if self.hostile() {
+                    self.interesting_value(t);
+                }
+                self.emit(op::ecop(d, c, t, s));
+            }
             0 => self.emit(op::s256(d, s, l)),
             1 => self.emit(op::k256(d, s, l)),
             2 => {
